@@ -416,3 +416,186 @@ Proof.
     rewrite (member_lines_shown (s_mp s) g idx El). unfold shown. rewrite He.
     apply frame_of_logic. rewrite Ey. symmetry. exact Elog.
 Qed.
+
+(* ------------------------------------------------------------------ the reap flag of C02_order_step, computed *)
+Section ReapFlag.
+  Variable W H : N.
+  Variable fails : N -> bool.
+  Local Notation step_sys := (step_sys W H fails).
+  Local Notation op_reaps := (op_reaps W H fails).
+
+  Lemma mp_draws_app now acts1 : forall m c acts2,
+    mp_draws W H fails now m c (acts1 ++ acts2)
+    = mp_draws W H fails now m c acts1
+      ++ (let '(m1, _, c1) := mp_run W H fails now m c acts1 in mp_draws W H fails now m1 c1 acts2).
+  Proof.
+    induction acts1 as [|a r IH]; intros m c acts2; cbn [mp_draws mp_run app]; [reflexivity|].
+    destruct (mp_exec1 W H fails now m c a) as [[[m1 e1] c1] ok1]. rewrite IH, app_assoc.
+    destruct (mp_run W H fails now m1 c1 r) as [[m2 e2] c2]. reflexivity.
+  Qed.
+
+  Lemma store_draw_draws now m c idx texts bars force :
+    mp_draws W H fails now m c [AStore idx texts bars; ADraw force None]
+    = [(ms_store m idx texts bars, force, None)].
+  Proof.
+    cbn [mp_draws mp_exec1 app].
+    destruct (ms_draw W H fails (ms_store m idx texts bars) force None now c) as [[[m2 e2] c2] ok2]. reflexivity.
+  Qed.
+
+  (** the transition of MultiState made by a non-structural call, with its reap flag *)
+  Lemma nonstruct_trans_flag s now o : MInv s -> op_ok s o = true -> structural o = false ->
+    MTrans (s_mp s) (fst (fst (mp_run W H fails now (s_mp s) (s_calls s) (op_actions W s now o)))) (op_reaps s now o).
+  Proof.
+    intros MI Hk Hs. pose proof (MInv_core s MI) as CI. unfold MultiLatest.op_reaps, step_draws.
+    destruct (op_draw s now o) as [[b st]|] eqn:Hd.
+    - pose proof (draw_op_actions W s now o b st Hk Hd) as Sh.
+      pose proof (ok_alive s o b Hk (op_draw_bar s now o b st Hd)) as Ha.
+      destruct (b_target (get_bar s b)) as [|tg0|idx] eqn:Etg; try (rewrite Sh; cbn; apply MTrans_refl; exact CI).
+      destruct Sh as [force Sh]. rewrite Sh.
+      assert (Edt : drop_tail o idx = []) by (destruct o; try reflexivity; discriminate Hs).
+      rewrite Edt, store_draw_draws. cbn [existsb fst snd]. rewrite orb_false_r.
+      apply store_draw_trans; [exact CI | exact (proj1 (mi_alive s MI b idx Ha Etg))].
+    - destruct o; cbn [op_draw] in Hd; try discriminate Hd; try discriminate Hs; cbn [op_actions].
+      + rewrite pos_actions_none; [cbn; apply MTrans_refl; exact CI | eapply ok_alive; [exact Hk | reflexivity] | exact Hd].
+      + rewrite pos_actions_none; [cbn; apply MTrans_refl; exact CI | eapply ok_alive; [exact Hk | reflexivity] | exact Hd].
+      + rewrite pos_actions_none; [cbn; apply MTrans_refl; exact CI | eapply ok_alive; [exact Hk | reflexivity] | exact Hd].
+      + cbn. apply MTrans_refl; exact CI.
+      + (* OSuspend *)
+        destruct (b_target (get_bar s b)) as [|tg0|idx].
+        * cbn [mp_draws mp_run mp_exec1 existsb app].
+          destruct (emit_each fails (s_calls s) (map TLine ws)) as [e c']. cbn. apply MTrans_refl; exact CI.
+        * cbn. apply MTrans_refl; exact CI.
+        * cbn [mp_draws mp_exec1 app existsb fst snd].
+          destruct (ms_suspend W H fails (s_mp s) ws now (s_calls s)) as [[m2 e2] c2] eqn:Es.
+          cbn [existsb fst snd]. rewrite orb_false_r.
+          pose proof (single_suspend_trans W H fails (s_mp s) ws now (s_calls s) CI) as T.
+          cbn [MultiSpec.mp_run mp_exec1] in T |- *. rewrite Es in T |- *. exact T.
+      + cbn. apply MTrans_refl; exact CI.
+      + cbn. apply MTrans_refl; exact CI.
+      + (* OMPrintln *)
+        cbn [mp_draws mp_exec1 app].
+        match goal with |- context [ms_draw W H fails (s_mp s) true ?ex now (s_calls s)] => set (ex1 := ex) end.
+        pose proof (single_draw_trans W H fails (s_mp s) true ex1 now (s_calls s) CI) as T.
+        cbn [MultiSpec.mp_run mp_exec1] in T |- *.
+        destruct (ms_draw W H fails (s_mp s) true ex1 now (s_calls s)) as [[[m2 e2] c2] ok2].
+        cbn [existsb fst snd]. rewrite orb_false_r. exact T.
+      + (* OMSuspend *)
+        cbn [mp_draws mp_exec1 app existsb fst snd].
+        destruct (ms_suspend W H fails (s_mp s) ws now (s_calls s)) as [[m2 e2] c2] eqn:Es.
+        cbn [existsb fst snd]. rewrite orb_false_r.
+        pose proof (single_suspend_trans W H fails (s_mp s) ws now (s_calls s) CI) as T.
+        cbn [MultiSpec.mp_run mp_exec1] in T |- *. rewrite Es in T |- *. exact T.
+      + (* OMClear *)
+        cbn [mp_draws mp_run mp_exec1 app existsb].
+        pose proof (ms_clear_trans W H fails (s_mp s) (s_calls s) CI) as T. unfold fst4 in T.
+        destruct (ms_clear W H fails (s_mp s) (s_calls s)) as [[[m2 e] c'] ok]. exact T.
+      + cbn. apply MTrans_same; auto; repeat split.
+  Qed.
+End ReapFlag.
+
+Section ReapFlag2.
+  Variable W H : N.
+  Variable fails : N -> bool.
+  Local Notation step_sys := (step_sys W H fails).
+  Local Notation op_reaps := (op_reaps W H fails).
+
+  Lemma nonstruct_sim_flag s a now o : MInv s -> Refines s a -> op_ok s o = true -> structural o = false ->
+    MInv (step_sys s now o) /\ Refines (step_sys s now o) (a_maybe_reap (op_reaps s now o) a).
+  Proof.
+    intros MI RF Hk Hs.
+    pose proof (nonstruct_trans_flag W H fails s now o MI Hk Hs) as T.
+    destruct (step_mp W H fails s now o) as [Emp _]. cbn [fst] in Emp. rewrite <- Emp in T.
+    apply (trans_sim s (step_sys s now o) a _ MI RF); [|exact T].
+    apply step_bars_pres. exact Hs.
+  Qed.
+
+  (** C02_order_step with the reap flag COMPUTED from the call: [op_reaps] = one of the
+      MultiState::draw calls the call makes is attempted *)
+  Theorem step_sim_flag s a now o : MInv s -> Refines s a -> op_ok s o = true ->
+    MInv (step_sys s now o) /\ Refines (step_sys s now o) (a_step (op_reaps s now o) a o).
+  Proof.
+    intros MI RF Hk. destruct (structural o) eqn:Hs.
+    - destruct o; try discriminate Hs.
+      + (* drop *)
+        assert (Ha : alive s b = true) by (eapply op_ok_alive; eauto; reflexivity).
+        assert (Hk2 : op_ok s (OFinish b (b_on_finish (get_bar s b))) = true) by (unfold op_ok; cbn; rewrite Ha; reflexivity).
+        assert (Efl : op_reaps s now (ODrop b)
+                      = if finished (get_bar s b) then false else op_reaps s now (OFinish b (b_on_finish (get_bar s b)))).
+        { unfold MultiLatest.op_reaps, step_draws. cbn [op_actions]. rewrite mp_draws_app.
+          destruct (finished (get_bar s b)).
+          - cbn [mp_draws mp_run app]. destruct (b_target (get_bar s b)); reflexivity.
+          - destruct (mp_run W H fails now (s_mp s) (s_calls s) (finish_actions W s b (b_on_finish (get_bar s b)))) as [[m1 e1] c1].
+            destruct (b_target (get_bar s b)); cbn [mp_draws mp_exec1 app]; rewrite app_nil_r; reflexivity. }
+        rewrite Efl. unfold MultiSpec.step_sys. cbn [step fst a_step]. unfold bar_drop.
+        destruct (finished (get_bar s b)) eqn:Hf.
+        * cbn [fst a_maybe_reap]. apply mark_sim; assumption.
+        * destruct (nonstruct_sim_flag s a now (OFinish b (b_on_finish (get_bar s b))) MI RF Hk2 eq_refl) as (MI1 & RF1).
+          pose proof (step_bars_pres W H fails s now (OFinish b (b_on_finish (get_bar s b))) eq_refl) as BP.
+          unfold MultiSpec.step_sys in MI1, RF1, BP. cbn [step fst] in MI1, RF1, BP.
+          destruct (bar_finish W H fails s b (b_on_finish (get_bar s b)) now) as [s1 e]. cbn [fst] in *.
+          apply mark_sim; auto. destruct (BP b) as [-> _]. exact Ha.
+      + (* insert: no draw *)
+        assert (Efl : op_reaps s now (OInsert loc b) = false).
+        { unfold MultiLatest.op_reaps, step_draws. cbn [op_actions].
+          destruct (b_target (get_bar s b)); [| |reflexivity];
+            (match goal with |- context [match ?x with Some l => _ | None => _ end] => destruct x as [l|] end; [|reflexivity];
+             match goal with |- context [ms_insert (s_mp s) ?l0] => destruct (ms_insert (s_mp s) l0) as [[m1 idx]|] eqn:Ei; [|reflexivity] end;
+             reflexivity). }
+        rewrite Efl.
+        cbn [a_step a_maybe_reap].
+        pose proof Hk as Hk'. unfold op_ok in Hk'. cbn [op_bar] in Hk'.
+        apply andb_prop in Hk'. destruct Hk' as [Ha Href].
+        destruct (is_member s b) eqn:Hnm.
+        { (* already a member: no effect (fix bee77c9) *)
+          unfold step_sys. cbn [step]. destruct (is_member_target s b Hnm) as [i0 Ht0]. rewrite Ht0. cbn [fst].
+          split; [exact MI|]. cbn [a_struct]. rewrite a_ins_member; [destruct a; exact RF|].
+          apply (rf_alive s a RF b Ha Hnm). }
+        assert (Hloc : exists l, loc_of s loc = Some l /\
+                  (forall r, (loc = BAfter r \/ loc = BBefore r) -> In (slot_of s r) (ms_order (s_mp s))
+                             /\ (l = LAfter (slot_of s r) \/ l = LBefore (slot_of s r)))).
+        { destruct loc as [|p|p|r|r]; cbn [loc_of]; try (eexists; split; [reflexivity|]; intros r [Hc|Hc]; discriminate).
+          - apply andb_prop in Href. destruct Href as [Har Hmr]. destruct (is_member_target s r Hmr) as [i Hi].
+            rewrite Hi. eexists; split; [reflexivity|]. intros r' [Hc|Hc]; [|discriminate]. injection Hc as <-.
+            destruct (slot_of_target s r i Hi) as [-> _]. split; [eapply (mi_alive s MI); eauto | auto].
+          - apply andb_prop in Href. destruct Href as [Har Hmr]. destruct (is_member_target s r Hmr) as [i Hi].
+            rewrite Hi. eexists; split; [reflexivity|]. intros r' [Hc|Hc]; [discriminate|]. injection Hc as <-.
+            destruct (slot_of_target s r i Hi) as [-> _]. split; [eapply (mi_alive s MI); eauto | auto]. }
+        destruct Hloc as (l & Hloc & Hrefs).
+        assert (Hins : exists m1 idx, ms_insert (s_mp s) l = Some (m1, idx)).
+        { unfold ms_insert. destruct (ms_free (s_mp s)) as [|i fr];
+          (destruct loc as [|p|p|r|r]; cbn [loc_of] in Hloc;
+           [ injection Hloc as <-; eexists; eexists; reflexivity
+           | injection Hloc as <-; eexists; eexists; reflexivity
+           | injection Hloc as <-; eexists; eexists; reflexivity
+           | destruct (Hrefs r (or_introl eq_refl)) as [Hin [Hl|Hl]]; subst l;
+             cbn [ms_order set_ms_free set_ms_members]; destruct (posN_In _ _ Hin) as [q ->]; eexists; eexists; reflexivity
+           | destruct (Hrefs r (or_intror eq_refl)) as [Hin [Hl|Hl]]; subst l;
+             cbn [ms_order set_ms_free set_ms_members]; destruct (posN_In _ _ Hin) as [q ->]; eexists; eexists; reflexivity ]). }
+        destruct Hins as (m1 & idx & Hins).
+        pose proof (insert_sim s a loc b l m1 idx MI RF Hk Hnm Hloc Hins) as Hsim. cbn zeta in Hsim.
+        unfold step_sys. cbn [step]. fold (loc_of s loc). rewrite Hloc, Hins.
+        unfold bar_set_target. change (get_bar (set_s_mp s m1) b) with (get_bar s b).
+        unfold is_member in Hnm. destruct (b_target (get_bar s b)); try discriminate Hnm; cbn [fst]; exact Hsim.
+      + (* remove *)
+        assert (Ha : alive s b = true) by (eapply op_ok_alive; eauto; reflexivity).
+        unfold MultiSpec.step_sys, MultiLatest.op_reaps, step_draws. cbn [step a_step op_actions].
+        destruct (b_target (get_bar s b)) as [|tg|idx] eqn:Ht.
+        * cbn [fst a_maybe_reap a_struct mp_draws existsb]. split; [exact MI|].
+          rewrite filter_neq_notin; [destruct a; exact RF|].
+          intros Hin. pose proof (rf_member s a RF b Hin) as Hm. unfold is_member in Hm. rewrite Ht in Hm. discriminate.
+        * cbn [fst a_maybe_reap a_struct mp_draws existsb]. split; [exact MI|].
+          rewrite filter_neq_notin; [destruct a; exact RF|].
+          intros Hin. pose proof (rf_member s a RF b Hin) as Hm. unfold is_member in Hm. rewrite Ht in Hm. discriminate.
+        * destruct (remove_sim s a b idx MI RF Ha Ht) as [MI1 RF1]. cbn zeta in MI1, RF1.
+          set (s1 := set_s_mp (upd_bar s b (fun x => set_b_target x THidden)) (ms_remove_idx (s_mp s) idx)) in *.
+          cbn [s_mp upd_bar set_s_bars s_calls mp_draws mp_exec1 app].
+          pose proof (ms_draw_trans W H fails (s_mp s1) true None now (s_calls s) (MInv_core s1 MI1)) as T.
+          unfold fst4 in T. unfold s1 in T at 2 3. cbn [s_mp set_s_mp] in T.
+          destruct (ms_draw W H fails (ms_remove_idx (s_mp s) idx) true None now (s_calls s)) as [[[m2 e] c'] ok].
+          cbn [fst snd existsb] in *. rewrite orb_false_r.
+          eapply (trans_sim s1 _ _ _ MI1 RF1); [|exact T]. apply bars_pres_refl. reflexivity.
+    - destruct (nonstruct_sim_flag s a now o MI RF Hk Hs) as (MI1 & RF1). split; [exact MI1|].
+      replace (a_step (op_reaps s now o) a o) with (a_maybe_reap (op_reaps s now o) a); [exact RF1|].
+      unfold a_step. rewrite a_struct_nonstruct by exact Hs. destruct o; try reflexivity. discriminate Hs.
+  Qed.
+End ReapFlag2.
